@@ -17,7 +17,20 @@ import (
 	"verifharness/evid"
 )
 
-const verifRoot = "/verif"
+// verifRoot is where MANIFEST.json, known_findings.json, evidence/ and
+// replays/ live: the directory run.sh was started from (so that a background
+// run from a snapshot of /verif writes into the snapshot, not into /verif).
+var verifRoot = func() string {
+	if r := os.Getenv("VERIF_ROOT"); r != "" {
+		return r
+	}
+	if wd, err := os.Getwd(); err == nil {
+		if _, err := os.Stat(filepath.Join(wd, "properties.jsonl")); err == nil {
+			return wd
+		}
+	}
+	return "/verif"
+}()
 
 // CheckDef describes one property check.
 type CheckDef struct {
